@@ -344,7 +344,10 @@ def run_check(mod, prop, tier, seed, args):
     for pname, v in new_violations:
         path = write_replay(prop, pname, v, tier, seed)
         replay_paths.append((pname, v, path))
-    if new_violations and not args.no_confirm and rc == 0:
+    # (a violation found next to a harness error elsewhere is still confirmed and reported: it stands
+    # on its own; the harness error only says that the run was not complete)
+    unreproduced = 0
+    if new_violations and not args.no_confirm:
         for pname, v, path in replay_paths[:CONFIRM_MAX]:
             cp = subprocess.run([os.path.join(VERIF, "check"), prop, "--replay", path],
                                 capture_output=True, text=True)
@@ -364,9 +367,11 @@ def run_check(mod, prop, tier, seed, args):
             else:
                 print("HARNESS-ERROR violation did not reproduce from %s (rc=%s)\n%s\n%s" % (
                     path, cp.returncode, cp.stdout[-1500:], cp.stderr[-1500:]))
-                rc = 2
-    if rc == 0 and new_violations:
+                unreproduced += 1
+    if new_violations and (args.no_confirm or confirmed > 0):
         rc = 1
+    elif unreproduced:
+        rc = 2
     if rc == 1:
         for pname, v, path in replay_paths[:40]:
             print("  [%s] %s :: %s" % (pname, v["sig"], v["msg"][:500].replace("\n", " | ")))
